@@ -332,7 +332,7 @@ def c11(ctx):
 @check("C13")
 def c13(ctx):
     ctx.assumptions += ["TLC evaluates Lex!PortionValue (base-ten value of a spelling) and Sem!Render", "the harness decodes a rendered 'a/b' into two integers",
-                        "numerals longer than 9 digits are covered by the scaling lift (same value spelled with 25 more digits renders identically) and by opaque transport"]
+                        "numerals longer than 9 digits are covered by the scaling lift (same value spelled with 1 to 40 more digits renders identically) and by opaque transport"]
     front.c13(ctx)
     return ctx.finish("model_checking", "exhaustive: every ratio / percentage spelling over the digit alphabet and lengths of Portions_<tier>.cfg with value in [0,1] "
                       "(leading zeros, optional spaces), each through 4 channels (literal / variable x rendered value / split) plus long-numeral variants; "
